@@ -270,8 +270,29 @@ static RCP<const Basic> X(int i)
 {
     return vgen::sym(i);
 }
+// finite doubles only, no -0.0, no complex double with a zero part
+static bool finite_doubles_only(const Basic &b)
+{
+    if (is_a<RealDouble>(b)) {
+        double d = down_cast<const RealDouble &>(b).i;
+        return std::isfinite(d) && !(d == 0 && std::signbit(d));
+    }
+    if (is_a<ComplexDouble>(b)) {
+        auto z = down_cast<const ComplexDouble &>(b).i;
+        return std::isfinite(z.real()) && std::isfinite(z.imag()) && z.real() != 0 && z.imag() != 0;
+    }
+    for (auto &a : b.get_args())
+        if (!finite_doubles_only(*a))
+            return false;
+    return true;
+}
+
 static void put(const char *op, const RCP<const Basic> &e, const std::string &tag)
 {
+    // the round-trip fragment has finite doubles only, no -0.0 and no complex double with a zero part (these
+    // arise as results of float arithmetic, e.g. -1 * 0.0); they are covered by the signed-zero family
+    if (std::string(op) == "str" && !finite_doubles_only(*e))
+        return;
     emit(std::string(op) + " " + vsexp::dump(*e), tag);
 }
 
@@ -453,23 +474,6 @@ static RCP<const Boolean> rand_bool(Rng &r, int depth)
     for (int i = 0; i < n; i++)
         s.insert(rand_bool(r, depth - 1));
     return k == 0 ? logical_and(s) : logical_or(s);
-}
-
-// finite doubles only, no -0.0, no complex double with a zero part
-static bool finite_doubles_only(const Basic &b)
-{
-    if (is_a<RealDouble>(b)) {
-        double d = down_cast<const RealDouble &>(b).i;
-        return std::isfinite(d) && !(d == 0 && std::signbit(d));
-    }
-    if (is_a<ComplexDouble>(b)) {
-        auto z = down_cast<const ComplexDouble &>(b).i;
-        return std::isfinite(z.real()) && std::isfinite(z.imag()) && z.real() != 0 && z.imag() != 0;
-    }
-    for (auto &a : b.get_args())
-        if (!finite_doubles_only(*a))
-            return false;
-    return true;
 }
 
 void hx_gen(Rng &r, const std::string &tier)
